@@ -342,7 +342,15 @@ impl Sender {
         }
         // table with full knowledge of what the caller intended
         let table = match spec.exts {
-            Some(e) if spec.func == Func::EncapExt => e.table(),
+            Some(e) if spec.func == Func::EncapExt => {
+                let mut t = e.table();
+                // a protocol type below 0x0100 that is not the id of the chain's final extension reads, on the
+                // wire, as one more (final, data-less) mandatory extension: the same view as for `encap`
+                if spec.ptype < 0x100 && t.get(spec.ptype) == Mand::Unknown {
+                    t.t[spec.ptype as usize] = Mand::Final(0);
+                }
+                t
+            }
             _ => {
                 let mut t = MandTable::none();
                 if spec.ptype < 0x100 {
